@@ -175,6 +175,10 @@ pub mod v1 {
     include!("ommx.v1.rs");
 }
 
+/// Hooks used only by the external verification harness (feature `verif`).
+#[cfg(feature = "verif")]
+pub mod verif;
+
 mod v1_ext {
     mod constraint;
     mod decision_variable;
